@@ -827,3 +827,12 @@ Lemma frame_wvi_s s cb body : len body < 268435456 -> frame s (frame5 cb body) =
 Proof.
   intros H. destruct s; [exact (frame_wvi cb body H)|]. apply frame_mono. exact (frame_wvi cb body H).
 Qed.
+
+Print Assumptions dvi_char.
+Print Assumptions value_char.
+Print Assumptions item_char.
+Print Assumptions loop_sound.
+Print Assumptions loop_complete.
+Print Assumptions props_strict.
+Print Assumptions props_lenient.
+Print Assumptions parse5_mono.
